@@ -46,7 +46,7 @@ fn big_status_json(version: &str, n: usize, pad: usize) -> String {
         }
         entries.push_str(&format!(
             r#"{{"userName":"{}é{}","ip":"169.254.169.254","port":80,"processCmdLine":"/usr/bin/çà€ {}","responseStatus":"200 OK","count":{}}}"#,
-            "a".repeat(pad), i, "ü".repeat(20), i + 1
+            "a".repeat(pad), i, "ü€".repeat(60 + pad), i + 1
         ));
     }
     format!(
